@@ -76,9 +76,81 @@ def loop_property(pid, extra_note=None):
     return check
 
 
+SYS_ASSUMPTIONS = [
+    "hannibal's own MIR (channel.rs, environment.rs, addr*.rs, context.rs, ...) is executed for everything inside the "
+    "crate (calls are resolved to the MIR bodies through the impl headers read from the source); the crates below it "
+    "are Python models: alloc::sync::Arc/Weak (counts), Box, futures mpsc (capacity = buffer + one slot per sender, "
+    "FIFO park queue, close on last sender/receiver drop), SinkExt::send (feed then flush), oneshot, Shared "
+    "(completes only by being polled; peek sees completed results only), abortable, Vec, Option/Result combinators, dyn-clone",
+    "drop glue is structural (fields of aggregates, model objects by their contract); hannibal's own Drop impls are executed from MIR",
+    "user code is the environment: handlers return a response tagged with their message, may stay pending "
+    "handler_pending times; started returns Ok",
+    "tasks are polled one at a time (single-threaded executor); every choice of the next runnable task is explored; a "
+    "task blocked on a model object becomes runnable when that object changes (what the real wakers do)",
+    "bounds: the listed programs (clients x operations), <= max_steps scheduler steps; capacity n symbolic in 0..3 where stated",
+]
+
+
+def _sys(ctx):
+    import run_sys
+    import mirdump
+
+    def compute():
+        return run_sys.run(ctx.functions, ctx.enums, mirdump.REPO, ctx.tier)
+    (res, stats), was_cached = ctx.cached('sys', compute)
+    stats = dict(stats)
+    stats['shared_exploration_reused'] = was_cached
+    return res, stats
+
+
+def _sys_sig(pid, x):
+    msg = re.sub(r'\b[a-d]\d\b|ctxstop:\d', 'M', x['msg'])
+    msg = re.sub(r'\d+', 'N', msg)
+    return f"{pid}:{x['prog']}:{msg}"
+
+
+def sys_property(pid, note=None, also_loop=False):
+    def check(ctx):
+        res, stats = _sys(ctx)
+        vio = [dict(sig=_sys_sig(pid, x), msg=x['msg'], program=x['prog'], capacity=x.get('cap'),
+                    trace=[list(map(str, e)) for e in x['trace']], choices=x['choices']) for x in res.get(pid, [])]
+        cov = dict(
+            evaluations=stats['paths'], distinct_nontrivial=stats['distinct_traces'],
+            rule="one evaluation = one explored schedule (sequence of task polls) of one closed program executed on "
+                 "hannibal's MIR; distinct_nontrivial = distinct event traces",
+            states=stats['steps'], transitions=stats['steps'] + stats['solver_calls'], traces_validated_against_impl=0,
+            samples=stats['samples'], solver_queries=stats['solver_calls'], solver_s=round(stats['solver_s'], 2),
+            schedules_cut_by_bound=stats['bound'], paths_truncated_by_loop_bound=stats['truncated'],
+            programs=stats['programs'], functions_encoded=stats['functions'], modelled_calls=stats['modelled'],
+            opaque_calls=stats['opaque'], exploration_wall_s=round(stats['wall_s'], 1),
+            shared_exploration_reused=stats['shared_exploration_reused'], exhaustive=False, note=note or '')
+        out = dict(violations=vio, coverage=cov, assumptions=list(SYS_ASSUMPTIONS))
+        if also_loop:
+            lres, lstats = _loop(ctx)
+            for x in lres.get(pid, []):
+                vio.append(dict(sig=_sig(pid, x), msg=x['msg'], cfg=x['cfg'], trace=[list(map(str, e)) for e in x['trace']], choices=x['choices']))
+            cov['loop_level'] = dict(paths=lstats['paths'], solver_queries=lstats['solver_calls'], configurations=lstats['configs'])
+            cov['evaluations'] += lstats['paths']
+            cov['distinct_nontrivial'] += lstats.get('distinct_traces', 0)
+            cov['solver_queries'] += lstats['solver_calls']
+            out['assumptions'] += LOOP_ASSUMPTIONS
+            if lstats['truncated']:
+                out['inconclusive'] = f"{lstats['truncated']} loop-level paths hit the unrolling bound"
+        if stats['truncated']:
+            out['inconclusive'] = f"{stats['truncated']} schedules hit the MIR loop unrolling bound"
+        return out
+    return check
+
+
 CHECKS = {
+    'C01': sys_property('C01', also_loop=True),
+    'C02': sys_property('C02', also_loop=True),
+    'C05': sys_property('C05'),
+    'C12': sys_property('C12'),
+    'C14': sys_property('C14'),
+    'C15': sys_property('C15'),
     'C03': loop_property('C03'),
-    'C04': loop_property('C04', "loop-level part: Stop is a barrier inside the loop, notifier fires after stopped() and only on graceful ends"),
+    'C04': sys_property('C04', also_loop=True),
     'C07': loop_property('C07', "loop-level part: strategy dispatch, callback order, failure of started during restart"),
     'C11': loop_property('C11'),
     'C13': loop_property('C13'),
